@@ -247,7 +247,8 @@ Section DataValue.
   Lemma decode_struct_shape ms bits priv size d v r : decode_tc (KStruct ms bits priv size) d = Ok (v, r) ->
     exists fs, v = RStruct fs.
   Proof.
-    rewrite decode_tc_struct. destruct (dec_members _ _ _ _ _) as [vals|]; [|destruct e; discriminate].
+    rewrite decode_tc_struct. destruct (negb _ && _); [discriminate|].
+    destruct (dec_members _ _ _ _) as [vals|]; [|destruct e; discriminate].
     cbn [bind]. destruct (dec_bits _ _ _) as [vals2|]; [|destruct e; discriminate].
     cbn [bind wrap_decode]. intros H. injection H as <- _. eauto.
   Qed.
